@@ -1,0 +1,19 @@
+//! Seams for deterministic-simulation checks (feature `verif`, off by default;
+//! nothing here is compiled otherwise). The functions are defined by the
+//! verification harness the crate is linked into.
+
+unsafe extern "Rust" {
+    safe fn __compio_verif_point(site: u32);
+    safe fn __compio_verif_spawn(f: Box<dyn FnOnce() + Send + 'static>);
+}
+
+/// A scheduling point: a controlled scheduler may switch threads here.
+#[inline(always)]
+pub(crate) fn point(site: u32) {
+    __compio_verif_point(site)
+}
+
+/// Start a thread the harness can schedule.
+pub(crate) fn spawn(f: impl FnOnce() + Send + 'static) {
+    __compio_verif_spawn(Box::new(f))
+}
